@@ -54,7 +54,7 @@ def gen_cases(tier, seed):
             if rng.random() < 0.7:
                 ends = [rng.choice(nodes)]
         cons = []; cov = 1.0
-        if not node and rng.random() < 0.25:
+        if not node and rng.random() < 0.4:
             if cyc:
                 w = gen.random_walk(rng, nodes, edges, maxlen=8)
                 if w and len(w) > 2:
@@ -65,8 +65,8 @@ def gen_cases(tier, seed):
                 cons = gen.rand_subpath_constraints(rng, P, n=rng.randint(1, 2)) if P else []
             cov = rng.choice([1.0, 1.0, 0.5])
         covlen = None; lengths = []
-        if cons and not cyc and rng.random() < 0.35:
-            covlen = rng.choice([0.4, 0.6, 1.0]); cov = 1.0
+        if cons and not cyc and rng.random() < 0.5:
+            covlen = rng.choice([0.25, 0.4, 0.6, 1.0]); cov = 1.0
             lengths = [[u, v, rng.choice([1, 2, 5])] for (u, v) in edges if rng.random() < 0.7]
         cases.append({"covlen": covlen, "lengths": lengths, "spec": gen.spec(nodes, edges, eattr={(u, v): {"len": l} for u, v, l in lengths}), "cyc": cyc, "node": node, "ignore": gen.jl(ign), "starts": starts, "ends": ends, "cons": gen.jl(cons), "cov": cov})
     return cases
